@@ -3,6 +3,7 @@ package main
 import (
 	"context"
 	"fmt"
+	"io"
 	"runtime"
 	"runtime/debug"
 )
@@ -257,8 +258,14 @@ func runC04(c *runCfg) error {
 			msg('Q', make([]byte, L+1)),
 			msg('z', make([]byte, 3*L+5)),
 			msg('Q', append(make([]byte, L-1), 0)),
+			// declared lengths between the configured limit and the default limit of 16 MiB, the input ends early
+			msgLen('Q', 8<<20, []byte("x")),
+			msgLen('d', 12<<20, []byte("x")),
 		}
 		for hi, m := range hostile {
+			if hi >= 9 && L >= 1<<20 {
+				continue
+			}
 			reg := &registry{recs: map[string]*recorder{}}
 			cs := flatCase(0, "alloc", cfg, nil, nil)
 			conn, _ := newSession(cs, reg)
@@ -282,6 +289,50 @@ func runC04(c *runCfg) error {
 			bound := uint64(3*L + 65535*64 + 65536)
 			c.out.line(sx("alloc", id, "alloc", sx("limit", L), sx("which", hi), sx("delta", delta), sx("bound", bound), sx("panic", o.panicv != "")))
 			c.stat("class_alloc")
+			id++
+		}
+	}
+	// the same measurement inside a TLS session: the reader of the upgraded connection obeys the configured limit
+	for _, L := range []int{1024, 65536} {
+		cfg := simpleCfg(L)
+		cfg.tls = true
+		hostile := [][]byte{
+			msgLen('Q', 0xffffffff, []byte("x")),
+			msgLen('Q', 8<<20, []byte("x")),
+			msgLen('B', 4<<20, []byte("x")),
+			msg('Q', make([]byte, L+1)),
+			msg('z', make([]byte, 3*L+5)),
+		}
+		for hi, m := range hostile {
+			reg := &registry{recs: map[string]*recorder{}}
+			cs := flatCase(0, "alloc_tls", cfg, nil, nil)
+			conn, _ := newSession(cs, reg)
+			conn.encrypted = true
+			srv, _ := buildServer(&cs.cfg, reg)
+			o := &obsT{}
+			serveAsync(srv, conn, o)
+			tc, side, ok := tlsDial(conn)
+			var delta uint64
+			if ok {
+				go io.Copy(io.Discard, tc)
+				tc.Write(stdStartup)
+				tc.Write(mQuery([]byte("select 1"))) // warm up
+				side.settle(idleTimeout)
+				old := debug.SetGCPercent(-1)
+				var before, after runtime.MemStats
+				runtime.ReadMemStats(&before)
+				tc.Write(m)
+				side.settle(idleTimeout)
+				runtime.ReadMemStats(&after)
+				debug.SetGCPercent(old)
+				delta = after.TotalAlloc - before.TotalAlloc
+			}
+			conn.setEOF()
+			conn.waitFinished(idleTimeout)
+			// as above, plus the record buffers of crypto/tls on both sides (the client lives in this process)
+			bound := uint64(3*L + 65535*64 + 65536 + 8*(16384+2048) + 2*len(m))
+			c.out.line(sx("alloc", id, "alloc_tls", sx("limit", L), sx("which", hi), sx("delta", delta), sx("bound", bound), sx("panic", o.panicv != "" || !ok)))
+			c.stat("class_alloc_tls")
 			id++
 		}
 	}
